@@ -62,7 +62,12 @@ impl ConstraintVal {
                     false
                 }
             }
-            ConstraintValArm::Exact(expected) => val.equal(expected).unwrap_or(false),
+            ConstraintValArm::Exact(expected) => match expected.as_ref() {
+                // A constraint used as an alternative (e.g. a named constraint
+                // inside an alternation) admits exactly what it admits itself.
+                Val::Constraint(inner) => inner.check(val),
+                _ => val.equal(expected).unwrap_or(false),
+            },
         })
     }
 }
